@@ -945,6 +945,18 @@ func (e *env) do(line, out string) string {
 
 func (e *env) step() {
 	r := e.h.Rng
+	// C03: a wrong passphrase opens nothing - also when the wallet is open already (a caller that authenticates itself by
+	// Unlock must not be waved through).  A probe, not a model line: what Unlock with the RIGHT passphrase does on an
+	// unlocked wallet is the documented quirk (DESIGN 4.A), a wrong one must be refused in any case.
+	if e.unlocked && e.priv >= 0 && len(e.ksIDs()) > 0 && !e.faulty && r.Intn(6) == 0 {
+		p := []int{1, 2, 3, 4, 0, 5, 8}[r.Intn(7)]
+		if p != e.priv && e.passes[p] != "" {
+			e.h.Res.OracleEvals++
+			if err := e.kmc.Unlock([]byte(e.passes[p])); err == nil {
+				e.fail("C03", "wrong-pass-accepted", "Unlock on the already unlocked wallet returned success for passphrase #%d while the current private passphrase is #%d", p, e.priv)
+			}
+		}
+	}
 	id, has := e.anyID()
 	x := r.Intn(100)
 	switch {
